@@ -1,7 +1,7 @@
 (* Proofs/C11GenBridge.v — BRIDGE: the generated MU loop with the C11 kernels (Model/C11GenMu.v gen_mu over Gen/GenCpAprMu.v) computes
    exactly the hand model Model/C11Apr.v cp_apr_mu (the model Props/C11.v C11_mu_nonneg / C11_bookkeeping and C18's dense = sparse theorem are
    about), for every clock whose readings never exceed the time limit. *)
-From Coq Require Import String List Arith Lia Bool.
+From Coq Require Import String List Arith Lia Bool ZArith.
 From PV Require Import Base.Index Base.Sum Np.Array Model.Sparse Model.Repr Model.C14Nvecs Model.C11Apr Model.W4SPrelude Gen.GenCpAprMu
                        Model.C11GenMu Proofs.W4SCpAprMu Proofs.C11GenTotal Proofs.C11Proofs.
 Import ListNotations.
@@ -284,4 +284,166 @@ Proof.
         apply (T (h_kappa_fix i st) (Some (g_mask (sPhi st) i (K_of st) kappatol)) nv HJk eq_refl).
 Qed.
 
+Lemma J_fold R N it l : forall st, J R N st -> J R N (fold_left (fun s n => h_mode_step X it n s) l st).
+Proof. induction l as [|n l IH]; intros st H; cbn [fold_left]; [exact H|]. apply IH, J_mode_step, H. Qed.
+
+Lemma outer_S f iter st kkts : h_outer (S f) X iter st kkts =
+  let st' := h_sweep X iter st in
+  let kkts' := kkts ++ [g_max (skkt st')] in
+  if sconv st' then (st', kkts') else h_outer f X (S iter) st' kkts'.
+Proof. reflexivity. Qed.
+
+Variable stoptime : V.
+Hypothesis never_late : forall t, vltb stoptime t = false.      (* no clock reading exceeds the time limit *)
+
+(* outer loop *)
+Lemma outer_bridge R N rank start : forall fuel i st kkts itopt kv nopt ni nt nv w,
+  J R N st -> length kkts = i -> firstn i kv = kkts -> i + fuel <= length kv ->
+  length ni = length kv -> length nt = length kv -> length nv = length kv ->
+  exists itopt' kv' nopt' ni' nt' nv' w',
+    gloop2 N eps X kappa kappatol maxinner rank start stoptime stoptol fuel i (K_of st, sPhi st, itopt, skkt st, kv, nopt, ni, nt, nv, w) =
+      Some (K_of (fst (h_outer fuel X i st kkts)), sPhi (fst (h_outer fuel X i st kkts)), itopt', skkt (fst (h_outer fuel X i st kkts)),
+            kv', nopt', ni', nt', nv', w') /\
+    firstn (length (snd (h_outer fuel X i st kkts))) kv' = snd (h_outer fuel X i st kkts) /\
+    itopt' = match fuel with O => itopt | S _ => Some (length (snd (h_outer fuel X i st kkts)) - 1) end /\
+    length ni' = length kv /\ length nv' = length kv /\ length nt' = length kv.
+Proof.
+  induction fuel as [|fuel IH]; intros i st kkts itopt kv nopt ni nt nv w HJ Hk Hf Hi L1 L2 L3.
+  - exists itopt, kv, nopt, ni, nt, nv, w. cbn. rewrite Hk. repeat split; assumption.
+  - cbn [GenCpAprMu.cp_apr_mu_loop2]. rewrite outer_S. cbv zeta.
+    set (st0 := mkSt (sw st) (sA st) (sPhi st) (skkt st) true).
+    assert (HJ0 : J R N st0) by exact HJ.
+    destruct (modes_bridge R N i rank N 0 st0 nopt ni nv w HJ0 ltac:(lia) ltac:(lia) ltac:(lia)) as (nopt1 & ni1 & nv1 & E & B1 & B2).
+    cbv zeta in E.
+    assert (Esw : fold_left (fun s n => h_mode_step X i n s) (seq 0 N) st0 = h_sweep X i st).
+    { unfold sweep. destruct HJ as (_ & _ & HN & _). now rewrite HN. }
+    rewrite Esw in E. set (st' := h_sweep X i st) in *.
+    assert (HJ' : J R N st') by (rewrite <- Esw; now apply J_fold).
+    match goal with |- context [gloop3 ?a ?b ?c ?d ?e ?f ?g ?h ?j ?k ?l ?t] =>
+      assert (E' : gloop3 a b c d e f g h j k l t = Some (K_of st', sPhi st', sconv st', skkt st', nopt1, ni1, nv1, w)) by exact E; rewrite E' end.
+    cbv iota beta.
+    rewrite (sk_set_upd kv i (g_max (skkt st')) ltac:(lia)).
+    destruct (clock w) as [w2 t].
+    rewrite (sk_set_upd nt i (vsub t start) ltac:(lia)).
+    assert (Hf' : firstn (S i) (upd kv i (g_max (skkt st'))) = kkts ++ [g_max (skkt st')]).
+    { rewrite firstn_upd_snoc by lia. now rewrite Hf. }
+    destruct (sconv st') eqn:Ec.
+    + do 7 eexists. split; [reflexivity|]. cbn [fst snd]. rewrite app_length, Hk. cbn [length].
+      replace (i + 1) with (S i) by lia. split; [exact Hf'|]. split; [f_equal; lia|]. rewrite upd_length. repeat split; congruence.
+    + rewrite (nth_error_upd nt i (vsub t start) ltac:(lia)). unfold g_leF at 1. rewrite never_late. cbn [negb].
+      destruct (IH (S i) st' (kkts ++ [g_max (skkt st')]) (Some i) (upd kv i (g_max (skkt st'))) nopt1 ni1 (upd nt i (vsub t start)) nv1 w2 HJ')
+        as (itopt' & kv' & nopt' & ni' & nt' & nv' & w' & E2 & C1 & C2 & C3 & C4 & C5);
+        rewrite ?app_length, ?upd_length; cbn [length]; try lia; try exact Hf'; try congruence.
+      exists itopt', kv', nopt', ni', nt', nv', w'. split; [exact E2|]. split; [exact C1|].
+      rewrite upd_length in C3, C4, C5. repeat split; try assumption.
+      rewrite C2. destruct fuel as [|fuel']; [|reflexivity].
+      cbn [outer snd]. rewrite app_length, Hk. cbn [length]. f_equal. lia.
+Qed.
+
+(* ---- initialisation *)
+Lemma loop1_eq M : forall fuel i Phi n, exists n', gloop1 M fuel i (Phi, n) = Some (Phi ++ map (g_zeros M) (seq i fuel), n').
+Proof.
+  induction fuel as [|fuel IH]; intros i Phi n.
+  - exists n. cbn. now rewrite app_nil_r.
+  - cbn [GenCpAprMu.cp_apr_mu_loop1 seq map]. destruct (IH (S i) (Phi ++ [g_zeros M i]) (Some i)) as (n' & E).
+    exists n'. rewrite E. now rewrite <- app_assoc.
+Qed.
+
+Lemma map_length_upd {A} (l : list (list A)) : forall n x, length x = length (nth n l []) ->
+  map (@length A) (upd l n x) = map (@length A) l.
+Proof. induction l as [|y l IH]; intros [|n] x H; cbn in *; auto; f_equal; auto. Qed.
+Lemma map_seq_all {A B} (g : A -> B) (l : list A) d : map (fun n => g (nth n l d)) (seq 0 (length l)) = map g l.
+Proof.
+  apply nth_ext with (d := g d) (d' := g d); [now rewrite !map_length, seq_length|].
+  rewrite map_length, seq_length. intros i Hi. rewrite map_seq_nth by exact Hi. now rewrite map_nth.
+Qed.
+
+Notation h_init := (init_state v0 vadd vmul vscale vabs).
+Definition norm_all (l : list nat) (st : state) : state := fold_left (fun s n => h_normalize_mode n s) l st.
+
+Lemma norm_all_K l : forall st, K_of (norm_all l st) = fold_left (fun K n => g_normalize_mode K n 1) l (K_of st).
+Proof. induction l as [|n l IH]; intros st; cbn [norm_all fold_left]; [reflexivity|]. fold (norm_all l (h_normalize_mode n st)). now rewrite IH. Qed.
+Lemma norm_all_rest l : forall st, sPhi (norm_all l st) = sPhi st /\ skkt (norm_all l st) = skkt st /\
+  rankof (norm_all l st) = rankof st /\ map (@length (list V)) (sA (norm_all l st)) = map (@length (list V)) (sA st).
+Proof.
+  induction l as [|n l IH]; intros st; cbn [norm_all fold_left]; [auto|]. fold (norm_all l (h_normalize_mode n st)).
+  destruct (IH (h_normalize_mode n st)) as (A1 & A2 & A3 & A4). rewrite A1, A2, A3, A4. repeat split.
+  - unfold normalize_mode, rankof. cbn [sw]. now rewrite map_length, seq_length.
+  - unfold normalize_mode. cbn [sA]. apply map_length_upd. now rewrite mtab_length.
+Qed.
+Lemma norm_all_J R N l : forall st, J R N st -> J R N (norm_all l st).
+Proof. induction l as [|n l IH]; intros st H; cbn [norm_all fold_left]; [exact H|]. apply IH, J_normalize, H. Qed.
+
+Lemma outer_len_S : forall f i st kkts, length kkts < length (snd (h_outer (S f) X i st kkts)).
+Proof.
+  induction f as [|f IH]; intros i st kkts; rewrite outer_S; cbv zeta; destruct (sconv _).
+  - cbn [snd]. rewrite app_length. cbn. lia.
+  - cbn [outer snd]. rewrite app_length. cbn. lia.
+  - cbn [snd]. rewrite app_length. cbn. lia.
+  - specialize (IH (S i) (h_sweep X i st) (kkts ++ [g_max (skkt (h_sweep X i st))])). rewrite app_length in IH. cbn [length] in IH. lia.
+Qed.
+
+(* ---- the whole function *)
+Theorem gen_mu_bridge : forall w rank (K : ktensor V) maxiters printitn printinner N,
+  wf_k K -> N = length (kfactors K) -> 1 <= maxiters ->
+  let r := h_mu X K maxiters in
+  let Mfin := g_sort (K_of (fst r)) 1 true in
+  exists ninner nviol ntotal times tstop w',
+    gmu w X rank K stoptol stoptime maxiters maxinner eps printitn printinner kappa kappatol N =
+      Some (Mfin, (snd r, ninner, nviol, ntotal, times, tstop, vloglik X Mfin), w') /\
+    length ninner = length (snd r) /\ length nviol = length (snd r) /\ length times = length (snd r).
+Proof.
+  intros w rank K maxiters printitn printinner N Hwf HN Hm. cbv zeta.
+  unfold C11Apr.cp_apr_mu. set (sti := h_init K).
+  assert (Hinit : sti = norm_all (seq 0 (length (kfactors K)))
+            (mkSt (kweights K) (kfactors K) (map (fun A : matrix => mtab (length A) (length (kweights K)) (fun _ _ => v0)) (kfactors K))
+                  (repeat v0 (length (kfactors K))) true)) by reflexivity.
+  set (st00 := mkSt (kweights K) (kfactors K) (map (fun A : matrix => mtab (length A) (length (kweights K)) (fun _ _ => v0)) (kfactors K))
+                  (repeat v0 (length (kfactors K))) true) in Hinit.
+  assert (HK0 : g_normalize K 1 = K_of sti).
+  { rewrite Hinit, norm_all_K. unfold gk_normalize. destruct K; reflexivity. }
+  destruct (norm_all_rest (seq 0 (length (kfactors K))) st00) as (R1 & R2 & R3 & R4). rewrite <- Hinit in R1, R2, R3, R4.
+  assert (HJ : J (krank K) N sti).
+  { rewrite Hinit. apply norm_all_J. unfold st00. apply J_mk; auto.
+    - now rewrite map_length.
+    - now rewrite repeat_length. }
+  assert (HPhi : map (g_zeros (K_of sti)) (seq 0 N) = sPhi sti).
+  { rewrite R1. unfold st00. cbn [sPhi]. rewrite HN. rewrite <- (map_seq_all (fun A : matrix => mtab (length A) (length (kweights K)) (fun _ _ => v0)) (kfactors K) []).
+    apply map_ext. intros n. unfold gk_zeros, kfac, krank, K_of. cbn [kfactors kweights].
+    change (length (sw sti)) with (rankof sti). rewrite R3. unfold st00, rankof. cbn [sw]. f_equal.
+    change (length (nth n (sA sti) [])) with (length (nth n (sA sti) (@nil (list V)))).
+    rewrite <- (map_nth (@length (list V)) (sA sti) [] n), R4. unfold st00. cbn [sA]. now rewrite (map_nth (@length (list V))). }
+  unfold gen_mu, GenCpAprMu.cp_apr_mu. rewrite HK0.
+  destruct (loop1_eq (K_of sti) N 0 [] None) as (n0 & ->). cbn [app]. rewrite HPhi.
+  destruct (clock w) as [w1 t1].
+  assert (Hkm : repeat v0 N = skkt sti) by (rewrite R2; unfold st00; cbn [skkt]; now rewrite HN).
+  rewrite Hkm.
+  destruct (outer_bridge (krank K) N rank t1 maxiters 0 sti [] None (repeat (vsub v0 v1) maxiters) n0 (repeat 0 maxiters) (repeat v0 maxiters)
+              (repeat 0 maxiters) w1 HJ eq_refl eq_refl)
+    as (itopt' & kv' & nopt' & ni' & nt' & nv' & w' & E & C1 & C2 & C3 & C4 & C5); rewrite ?repeat_length; try lia.
+  rewrite E. destruct (clock w') as [w3 t3].
+  destruct maxiters as [|m]; [lia|]. rewrite C2.
+  pose proof (outer_len_S m 0 sti []) as Hlen. cbn [length] in Hlen.
+  set (r := h_outer (S m) X 0 sti []) in *.
+  replace (length (snd r) - 1 + 1) with (length (snd r)) by lia.
+  unfold sk_slice. cbn [skipn]. rewrite Nat.sub_0_r, C1.
+  do 6 eexists. split; [reflexivity|]. rewrite repeat_length in C3, C4, C5.
+  pose proof E as E0. apply loop2_len in E0. destruct E0 as (LA & _). rewrite repeat_length in LA.
+  pose proof (f_equal (@length V) C1) as Hc. rewrite firstn_length in Hc.
+  rewrite !firstn_length. lia.
+Qed.
+
 End Bridge.
+
+Local Open Scope Z_scope.
+Lemma gen_bridge_ex :
+  let X := mkDense [3; 2]%nat [2; 0; 1; 3; 0; 4] in
+  let K := mkK [1; 2] [[[1; 2]; [0; 0]; [2; 1]]; [[1; 1]; [3; 0]]] in
+  let r := C11Apr.cp_apr_mu 0 1 Z.add Z.mul Z.sub (fun x v => x) (fun t a => a) Z.abs Z.min Z.max (Z.ltb 0) Z.ltb 1 3 1 1%nat X K 2%nat in
+  match gen_mu 0 1 Z.add Z.mul Z.sub (fun eps x v => x) (fun t a => a) Z.abs Z.min Z.max (Z.ltb 0) Z.ltb nat (fun w => (S w, Z.of_nat w))
+               (fun _ _ => 7) 5%nat X 2%nat K 1 100 2%nat 1%nat 1 0%nat 0%nat 1 3 2%nat with
+  | Some (M, (kkt, _, _, _, _, _, _), _) =>
+      M = gk_normalize_sort 0 Z.add Z.mul (fun t a => a) Z.abs Z.ltb (K_of (fst r)) 1 true /\ kkt = snd r /\ kkt = [1643; 34371575995622399]
+  | None => False
+  end.
+Proof. vm_compute. repeat split; reflexivity. Qed.
